@@ -3,13 +3,22 @@ import json, os, copy, time
 from harness import tlc, engine
 from harness.common import Machinery, workdir, write_ndjson
 
-ALL_KINDS = ["defvar", "deffun", "assign", "delete", "mut_objproto", "mut_math", "mut_arrproto", "mut_strctor",
-             "mut_errproto", "throw", "loop", "recurse", "syntax", "ieval", "ieval_loop", "newfn", "read", "reenter", "set", "get"]
+BASE_KINDS = ["defvar", "deffun", "assign", "delete", "mut_objproto", "mut_math", "mut_arrproto", "mut_strctor",
+              "mut_errproto", "throw", "loop", "recurse", "syntax", "ieval", "ieval_loop", "newfn", "read", "reenter", "set", "get"]
+REDECL_KINDS = ["redecl", "redecl_f", "redecl_or", "redecl_dead", "redecl_ieval", "redecl_newfn", "redecl_newfn_init",
+                "redecl_throw"]
+INV_KINDS = ["inv_mut", "inv_del", "inv_throw", "inv_ieval", "inv_loop"]
+ALL_KINDS = BASE_KINDS + REDECL_KINDS + INV_KINDS
+# everything that defines, re-declares or reads the two names, plus one error of each class: longer histories
+NAME_KINDS = ["defvar", "deffun", "assign", "set", "get", "read", "newfn", "ieval", "throw", "loop", "syntax"] + REDECL_KINDS
 SUB_KINDS = ["defvar", "deffun", "assign", "delete", "mut_objproto", "throw", "loop", "recurse", "syntax", "ieval",
              "newfn", "read", "reenter", "set", "get"]
 ACTIONS = ["Effect", "Exit", "EvalDefVar", "EvalDefFun", "EvalAssign", "EvalDelete", "EvalMutObjProto", "EvalMutMath",
            "EvalMutArrProto", "EvalMutStrCtor", "EvalMutErrProto", "EvalThrow", "EvalLoop", "EvalRecurse", "EvalSyntax",
-           "EvalIndirect", "EvalIndirectLoop", "EvalNewFunction", "EvalRead", "EvalReenter", "Set", "Get"]
+           "EvalIndirect", "EvalIndirectLoop", "EvalNewFunction", "EvalRead", "EvalReenter", "Set", "Get",
+           "EvalRedecl", "EvalRedeclF", "EvalRedeclOr", "EvalRedeclDead", "EvalRedeclIndirect", "EvalRedeclNewFn",
+           "EvalRedeclNewFnInit", "EvalRedeclThrow", "EvalInvMut", "EvalInvDel", "EvalInvThrow", "EvalInvIndirect",
+           "EvalInvLoop"]
 
 
 def consts(nc, maxn, vals, kinds):
@@ -18,7 +27,7 @@ def consts(nc, maxn, vals, kinds):
 
 
 MC_CFG = ("SPECIFICATION Spec\n%s" "CONSTRAINT Bound\nINVARIANT TypeOK PointerClear Recovery %s\n"
-          "PROPERTY Frame EffectsPersist AtomicAgrees SyntaxNoEffect NestingBalanced\nCHECK_DEADLOCK FALSE\n")
+          "PROPERTY Frame EffectsPersist AtomicAgrees SyntaxNoEffect NestingBalanced RedeclKeeps\nCHECK_DEADLOCK FALSE\n")
 ENUM_CFG = "INIT EnumInit\nNEXT EnumNext\n%sCHECK_DEADLOCK FALSE\n"
 TRACE_CFG = ("INIT TraceInit\nNEXT TraceNext\nCONSTRAINT TraceEmit\nINVARIANT TraceTypeOK\n"
              + consts(3, 100, [1], []) + "CHECK_DEADLOCK FALSE\n")
@@ -28,14 +37,20 @@ def model_check(rep):
     """TLC on ContextModel itself: frame, recovery, pointer, persistence over all histories up to length 6."""
     runs = []
     if rep.tier == "quick":
-        # A: the whole catalogue, every history up to 6 events on two contexts;
-        # B: the whole catalogue with two values, short, with -coverage and the spelled-out recovery clause
-        runs.append(("catalogue-len6", consts(2, 6, [1], ALL_KINDS), "", False))
-        runs.append(("catalogue-len3-coverage", consts(2, 3, [1], ALL_KINDS), "RecoveryBehaviour", True))
+        # A: the base catalogue, every history up to 6 events on two contexts;
+        # B: the whole catalogue (with the re-declaration and inventory kinds), short, with -coverage;
+        # C: the same, shorter, with the spelled-out recovery clause; D: everything that touches the two names and
+        #    the inventory target, up to 5 events
+        runs.append(("catalogue-len6", consts(2, 6, [1], BASE_KINDS), "", False))
+        runs.append(("whole-catalogue-len3-coverage", consts(2, 3, [1], ALL_KINDS), "", True))
+        runs.append(("whole-catalogue-len2-recovery", consts(2, 2, [1], ALL_KINDS), "RecoveryBehaviour", False))
+        runs.append(("names-inventory-len5", consts(2, 5, [1], NAME_KINDS + INV_KINDS[:3]), "", False))
     else:
-        runs.append(("catalogue-len6-coverage", consts(2, 6, [1], ALL_KINDS), "", True))
+        runs.append(("catalogue-len6-coverage", consts(2, 6, [1], BASE_KINDS), "", True))
+        runs.append(("whole-catalogue-len4-coverage", consts(2, 4, [1], ALL_KINDS), "", True))
+        runs.append(("names-inventory-len7", consts(2, 7, [1], NAME_KINDS + INV_KINDS), "", False))
         runs.append(("subcatalogue-2values-len6", consts(2, 6, [1, 2], SUB_KINDS), "RecoveryBehaviour", False))
-        runs.append(("catalogue-2values-3contexts-len3", consts(3, 3, [1, 2], ALL_KINDS), "RecoveryBehaviour", False))
+        runs.append(("whole-catalogue-2values-3contexts-len3", consts(3, 3, [1, 2], ALL_KINDS), "RecoveryBehaviour", False))
     fired = {}
     for name, cs, extra_inv, cov in runs:
         res = tlc.run(rep.pid, "ContextModel", MC_CFG % (cs, extra_inv), timeout=1500, tag="mc_" + name, coverage=cov, heap="6g")
@@ -46,41 +61,62 @@ def model_check(rep):
             for a in ACTIONS:
                 if a not in res.coverage:
                     raise Machinery("coverage output has no entry for action %s" % a)
-                fired[a] = res.coverage[a][1]
+                fired[a] = max(fired.get(a, 0), res.coverage[a][1])
     vac = [a for a in ACTIONS if not fired.get(a)]
     if vac:
         raise Machinery("vacuous model-checking run: actions never fired: %s" % vac)
     rep.notes["actions_fired"] = fired
 
 
-def enumerate_histories(rep, nc, length, alphabet, tag):
-    res = tlc.run(rep.pid, "C12", ENUM_CFG % consts(nc, length, [1], []), env={"ALPHABET": alphabet},
+def discover_inventory(rep):
+    """Family I: the engine reports the global names of a fresh context and which access paths designate objects
+    that keep a property (raw facts, one scratch context per path); C12.tla decides which of them are targets."""
+    got = engine.run_cases(rep.pid, [{"id": 0}], driver="checks.c12_driver:discover", timeout=600, tag="discover")
+    if len(got) != 1 or not got[0].get("inventory"):
+        raise Machinery("inventory discovery returned nothing")
+    inv = got[0]["inventory"]
+    path = os.path.join(workdir(rep.pid, "inventory"), "inventory.ndjson")
+    write_ndjson(path, inv)
+    return inv, path
+
+
+def enumerate_histories(rep, nc, length, alphabet, tag, inv_file=None, inv_sub="all"):
+    env = {"ALPHABET": alphabet}
+    if inv_file:
+        env.update({"INV_FILE": inv_file, "INV_SUB": inv_sub})
+    res = tlc.run(rep.pid, "C12", ENUM_CFG % consts(nc, length, [1], []), env=env,
                   timeout=1500, tag=tag, heap="4g")
     rep.add_tlc("C12.Enum(%s,len=%d,nc=%d)" % (alphabet, length, nc), res)
-    limits, seen, hs = None, set(), []
+    limits, seen, hs, invrec = None, set(), [], None
     for r in res.records:
         if "limits" in r:
             limits = r["limits"]
+        elif "inv_ok" in r:
+            invrec = r
         elif "h" in r:
-            k = json.dumps(r["h"], separators=(",", ":"))
+            k = json.dumps({"h": r["h"], "tj": r["tj"], "late": r["late"]}, separators=(",", ":"))
             if k not in seen:
                 seen.add(k)
                 hs.append(k)              # kept as text: half a million histories as dicts would cost gigabytes
     if limits is None:
         raise Machinery("the specification did not print the limits")
+    if inv_file:
+        if invrec is None or not invrec["inv_ok"]:
+            raise Machinery("the discovered inventory of built-in objects is not well-formed (C12!InvWellFormed): %r" % (invrec,))
+        rep.notes.setdefault("inventory", {})[tag] = {"paths_reported": invrec["inv_len"], "targets": invrec["inv_n"]}
     return hs, limits
 
 
 def simulate_histories(rep, nc, length, num, tag):
     """seeded random long histories drawn by TLC's simulator from the same specification"""
     wd = workdir(rep.pid, "sim")
-    res = tlc.run(rep.pid, "C12", ENUM_CFG % consts(nc, length, [1], []), env={"ALPHABET": "full"},
+    res = tlc.run(rep.pid, "C12", ENUM_CFG % consts(nc, length, [1], []), env={"ALPHABET": "redecl"},
                   timeout=900, tag=tag, simulate="num=%d" % max(1, num // 16), depth=length + 2, seed=rep.seed, heap="3g")
     rep.add_tlc("C12.Simulate(len=%d,nc=%d,num=%d)" % (length, nc, num), res)
     seen, hs = set(), []
     for r in res.records:
         if "h" in r:
-            k = json.dumps(r["h"], separators=(",", ":"))
+            k = json.dumps({"h": r["h"], "tj": r["tj"], "late": r["late"]}, separators=(",", ":"))
             if k not in seen:
                 seen.add(k)
                 hs.append(k)
@@ -105,17 +141,25 @@ def run(rep):
     t0 = time.time()
     # ---- S->C: every history of exactly L events (all shorter ones are their prefixes) ----
     cases = []
+    inventory, inv_file = discover_inventory(rep)
+    # (contexts, events, alphabet, inventory sub-grid).  Families: H base catalogue; R re-declaration of names that may
+    # exist ("redecl" = base catalogue + every re-declaration form, "redecl1" = the kinds that touch the two names, one
+    # context, longer); I isolation of every object of the built-in object graph ("inv": target x late creation x history)
     if rep.tier == "quick":
-        plan = [(2, 3, "full")]
+        plan = [(2, 3, "full", None), (2, 2, "redecl", None), (1, 3, "redecl1", None), (2, 2, "inv", "quick")]
     else:
-        plan = [(2, 3, "full"), (2, 4, "core")]
+        plan = [(2, 3, "redecl", None), (2, 4, "core", None), (1, 4, "redecl1", None),
+                (2, 3, "inv", "all"), (2, 2, "invfull", "all")]
     limits = None
-    for nc, length, alpha in plan:
-        hs, limits = enumerate_histories(rep, nc, length, alpha, "enum_%s_%d" % (alpha, length))
+    for nc, length, alpha, sub in plan:
+        hs, limits = enumerate_histories(rep, nc, length, alpha, "enum_%s_%d" % (alpha, length),
+                                         inv_file=inv_file if sub else None, inv_sub=sub or "all")
         if len(hs) < 1000:
             raise Machinery("enumeration produced only %d histories" % len(hs))
-        rep.spaces.append({"space": "all histories of %d events over %d contexts, alphabet %s (TLC-enumerated; "
-                                    "every shorter history is a probed prefix)" % (length, nc, alpha),
+        what = ("(inventory target x late creation) x all histories" if sub else "all histories")
+        rep.spaces.append({"space": "%s of %d events over %d context(s), alphabet %s%s (TLC-enumerated; "
+                                    "every shorter history is a probed prefix)"
+                                    % (what, length, nc, alpha, ", inventory sub-grid %s" % sub if sub else ""),
                            "cases": len(hs), "complete": True})
         cases += [(nc, h) for h in hs]
     if rep.tier == "thorough":
@@ -133,7 +177,13 @@ def run(rep):
     keep = None                      # an accepted trace for the binding self-test
     for b in range(0, len(cases), CH):
         t0 = time.time()
-        part = [{"id": b + i, "nc": nc, "limits": limits[:nc], "h": json.loads(h)} for i, (nc, h) in enumerate(cases[b:b + CH])]
+        part = []
+        for i, (nc, h) in enumerate(cases[b:b + CH]):
+            rec = json.loads(h)
+            case = {"id": b + i, "nc": nc, "limits": limits[:nc], "h": rec["h"], "tj": rec["tj"], "late": rec["late"]}
+            if rec["tj"]:
+                case["target"] = inventory[rec["tj"] - 1]        # the path the specification chose, for rendering
+            part.append(case)
         traces = engine.run_cases(rep.pid, part, driver="checks.c12_driver:replay", timeout=3000, tag="eng_%d" % (b // CH))
         if len(traces) != len(part):
             raise Machinery("replay returned %d traces for %d histories" % (len(traces), len(part)))
@@ -151,6 +201,9 @@ def run(rep):
             raise Machinery("trace validation returned %d verdicts for %d traces" % (len(got), len(traces)))
         bytid = {t["tid"]: t for t in traces}
         hist = {c["id"]: c["h"] for c in part}
+        tgt = {c["id"]: ("[%s %s%s%s] " % (c["target"]["via"], c["target"]["root"],
+                                            "." + c["target"]["mem"] if c["target"]["mem"] else "",
+                                            " late" if c["late"] else "")) if c["tj"] else "" for c in part}
         for tid in sorted(got):
             v, t = got[tid], bytid[tid]
             if v["n"] != len(t["ev"]):
@@ -158,7 +211,7 @@ def run(rep):
             if v["ok"] and v.get("devs"):
                 # every observation is explained, some of them only by a listed deviation (as-is rule of the engine)
                 at = next(i for i, e in enumerate(t["ev"]) if e["k"] == "reenter" and e["r"] == 0)
-                rep.mismatch("%s @%d deviation" % (show(hist[tid])[:300], at + 1),
+                rep.mismatch("%s%s @%d deviation" % (tgt[tid], show(hist[tid])[:300], at + 1),
                              {"deviation": v["devs"], "event": t["ev"][at], "history": hist[tid][:at + 1]}, dev=v["devs"])
                 continue
             if v["ok"]:
@@ -171,10 +224,10 @@ def run(rep):
             if w["clause"] == "unsupported":
                 raise Machinery("the model cannot take event %d of history %s" % (w["at"], show(hist[tid])))
             ev = t["ev"][w["at"] - 1]
-            rep.mismatch("%s @%d %s(c%d)" % (show(hist[tid])[:300], w["at"], w["clause"], w["c"]),
+            rep.mismatch("%s%s @%d %s(c%d)" % (tgt[tid], show(hist[tid])[:300], w["at"], w["clause"], w["c"]),
                          {"clause": w["clause"], "at": w["at"], "context": w["c"], "expected_projection": w["exp"],
                           "event": ev, "history": hist[tid][:w["at"]]}, dev="")
-        del traces, verdicts, got, bytid, hist, part
+        del traces, verdicts, got, bytid, hist, part, tgt
     T = {k: round(v, 1) for k, v in T.items()}
     rep.notes['stage_wall_s'] = T
     rep.evaluations = nev
@@ -182,7 +235,8 @@ def run(rep):
     rep.exhaustive = True
     rep.notes["probe"] = ("after every event, for every context: get g, typeof g, eval g, get f, typeof f, f(), "
                           "Object.prototype.zo, Math.zm, Array-prototype.za, String.zs, Error.prototype.ze, "
-                          "_current_vm is None, unexpected global names")
+                          "_current_vm is None, unexpected global names, g readable, f readable, "
+                          "marker on the history's inventory target (family I)")
     rep.notes["events_validated"] = rep.evaluations
     rep.assumptions += ["String.prototype cannot be reached from script code in this engine; the String constructor "
                         "object stands in for it as a mutation target",
@@ -192,8 +246,9 @@ def run(rep):
 
 def selftest_shape(t):
     ks = [e["k"] for e in t["ev"]]
-    return len(ks) >= 2 and ks[0] in ("defvar", "set") and "reenter" not in ks and ks[1] not in (
-        "defvar", "set", "assign", "throw", "loop", "recurse", "ieval", "ieval_loop")
+    # second event: one that neither reads nor writes g, so that dropping the first shows as a state mismatch
+    return t["nc"] >= 2 and len(ks) >= 2 and ks[0] in ("defvar", "set") and "reenter" not in ks and ks[1] in (
+        "deffun", "delete", "mut_objproto", "mut_math", "mut_arrproto", "mut_strctor", "mut_errproto", "syntax")
 
 
 def selftest(rep, base):
